@@ -42,9 +42,9 @@ CHECKS = {
                   'AST scans for the renderers'),
     'C01': dict(
         category='proof',
-        text="count() of wigm (fixed and rational instances), wigm-prf(-batch), scotland, mpls, and meek/warren (fixed-point and guarded "
-             "instances, incl. the iteration loop: the total surplus strictly decreases, so each iteration ends) verified against a counter-level "
-             "contract: the main loop's variant 2*nH+nP decreases (termination), enough candidates remain (W2) is an inductive "
+        text="count() of wigm (fixed and rational instances), wigm-prf(-batch), scotland, mpls, meek/warren (fixed-point and guarded "
+             "instances, incl. the iteration loop: the total surplus strictly decreases, so each iteration ends) and qpq (exact rationals; "
+             "lexicographic variant over candidates-not-excluded and hopefuls, across restarts) verified against a counter-level contract: the main loop's variant 2*nH+nP decreases (termination), enough candidates remain (W2) is an inductive "
              "invariant, on return nobody is hopeful or pending, the seats are filled and the withdrawn count is untouched; every "
              "call of elect/defeat/unpend meets the writer's precondition. The other rules and the upper bound 'not more than the "
              "seats' (needs the vote ledger) are covered by the bounded stand-in only.",
@@ -52,7 +52,8 @@ CHECKS = {
         note=COMMON_NOTE + "Assumed: the election model of candidates.py selectors (Candidates.select/hopeful/... as abstract "
              "lists with ghost cardinalities nH,nE,nD,nW,nP updated at every status write: card-update lemma), the C15 post-parse "
              "invariant of rankings, trusted contracts of batchDefeat (wigm-prf) and findCertainLosers (mpls) (bounded stand-in). The select model is itself checked against the real body (8 POST obligations). "
-             "cfer, meek-prf, qpq count() bodies: bounded only (labelled). Meek/Warren: distributeVotes and batchDefeat are trusted contracts "
+             "cfer, meek-prf count() bodies: bounded only (labelled). QPQ: ZeroDivisionError is declared possible (its absence rests on the "
+             "QPQ ledger invariant, bounded only). Meek/Warren: distributeVotes and batchDefeat are trusted contracts "
              "(frame + 'an elected candidate keeps a positive tally'), termination of iterate() under exact rational arithmetic is not decided, "
              "and arithmetic=integer is outside the rule's domain (its own assertion rejects it). nE <= seats: bounded only.",
         technique='contract-based deductive verification of the real count() bodies (loop invariants declared + Houdini-inferred, '
@@ -98,9 +99,10 @@ CHECKS = {
              "(rules 49/51) is proved against its statutory contract: the most recent earlier stage whose saved tallies single one tied "
              "candidate out (fewest for an exclusion, most for a surplus) decides, else the lot (loop invariant over the saved rounds, "
              "model of E.rounds backed by SCAN obligations on who writes it); at the single-exclusion sites of wigm, wigm-prf, scotland the excluded candidate has a lowest hopeful tally and the surplus "
-             "transferred first is a largest one (site obligations); tie order is read only by byTieOrder (SCAN).",
+             "transferred first is a largest one (site obligations); under QPQ the candidate excluded has a smallest and the one elected a "
+             "largest quotient among the hopefuls (site obligations); tie order is read only by byTieOrder (SCAN).",
         design_ref='DESIGN 6/C07, 11.10',
-        note=COMMON_NOTE + "Sure-loser batches (batchDefeat / findCertainLosers: trusted contracts), meek-family and QPQ exclusion "
+        note=COMMON_NOTE + "Sure-loser batches (batchDefeat / findCertainLosers: trusted contracts) and meek-family exclusion "
              "sites: bounded monitor only (labelled). A-rounds: E.rounds[n] is the copy of the candidates saved when round n+1 began "
              "(SCAN: single appender under tag 'round', newRound increments and logs); candidate ids are distinct (A-profile).",
         technique='contract-based deductive verification (closure postconditions with quantified tie-order clause, site '
@@ -108,10 +110,11 @@ CHECKS = {
     'C09': dict(
         category='proof',
         text="Candidate.elect/defeat/unpend/unelect verified (state change + logged action + ghost counters); every call site in "
-             "wigm, wigm-prf, scotland, mpls, meek/warren count() satisfies the writer's precondition (hopeful -> elected/defeated, elected&pending "
+             "wigm, wigm-prf, scotland, mpls, meek/warren, qpq count() satisfies the writer's precondition (qpq: unelect only of elected "
+             "candidates, only in the restart block) (hopeful -> elected/defeated, elected&pending "
              "for unpend); .state/.pending/E.round have single writers (SCAN); newRound only increments; W2 invariant as in C01.",
         design_ref='DESIGN 6/C09, 11.11',
-        note=COMMON_NOTE + "Call sites in cfer, meek-prf, qpq and 'elected never exceed seats': bounded monitor only.",
+        note=COMMON_NOTE + "Call sites in cfer, meek-prf and 'elected never exceed seats': bounded monitor only.",
         technique='contract-based deductive verification (status-writer contracts, call-site preconditions in count()), AST '
                   'single-writer scans; bounded transition monitor as stand-in'),
     'C03': dict(
